@@ -137,6 +137,9 @@ def rule_fiber(ctx, E_dm):
     # C07.5 / C08.1 step accounting and C08.2 sites are shared with C08
     itn, gform = c08.fiber_interp(pkg, "nonzero")
     c08.rule_steps(ctx, fi, itn, rule_acc="C07.5", rule_site=None, dop=c08.find_dop(itn)[0], gamma=gform)
+    # "act as the linear filter exp(...)" for every input: the field returned is the propagated (complex) field itself, not a copy cast to
+    # the storage type of the input - a field given as real samples would lose the imaginary part the dispersion gives it
+    c08.rule_returned_field(ctx, fi, itn, "C07.9")
     # gamma == 0 -> single full-length step
     it0 = Interp(pkg, assumptions={"show_progress": False, "input.noise": "none", "gamma": 0}, param_classes={"input": "optical_signal"})
     it0.run(fi)
@@ -169,3 +172,4 @@ def run(ctx):
     ctx.require_min("C07.5", 2)
     ctx.require_min("C07.7", 1)
     ctx.require_min("C07.8", 2)
+    ctx.require_min("C07.9", 1)
